@@ -110,6 +110,9 @@ def check_queries(s, ix, qspecs, where, counters):
         for spec in qspecs:
             try:
                 exp = Q.evaluate(spec, docs, mi.schema)
+            except Q.Ambiguous:
+                counters["ambiguous_skipped"] = counters.get("ambiguous_skipped", 0) + 1
+                continue
             except Exception as e:  # noqa
                 raise HarnessError("evaluator failed on %s: %s" % (Q.show(spec), e))
             q = Q.build(spec, mi.schema)
